@@ -3,6 +3,9 @@ package pilosa_test
 // Generators for the properties that share the logical database harness.
 
 import (
+	"time"
+
+	"github.com/pilosa/pilosa"
 	"verif/simrt"
 )
 
@@ -106,6 +109,12 @@ func genC16(r *simrt.Rand, tier string) *simrt.Plan {
 			}
 			if f.typ == "time" && r.Bool(0.6) {
 				I[4], I[5] = g.alignedRange(f.quantum)
+				switch r.Intn(5) { // one-sided ranges
+				case 0:
+					I[4] = 0
+				case 1:
+					I[5] = 0
+				}
 			}
 			ops = append(ops, simrt.Op{K: "rows", S: []string{g.index, f.name}, I: I})
 		case x < 8:
@@ -116,8 +125,12 @@ func genC16(r *simrt.Rand, tier string) *simrt.Plan {
 				second = f2.name
 			}
 			first := g.field("set", "mutex", "bool")
-			ops = append(ops, simrt.Op{K: "groupby", S: []string{g.index, first.name, second, g.filterJSON(0.3)},
-				I: []int64{g.node(), int64(r.Intn(4)), int64(r.Intn(3)), int64(r.Intn(2))}})
+			S := []string{g.index, first.name, second, g.filterJSON(0.3)}
+			if second != "" && r.Bool(0.5) {
+				S = append(S, g.field("set", "mutex", "bool").name) // a third field
+			}
+			ops = append(ops, simrt.Op{K: "groupby", S: S,
+				I: []int64{g.node(), int64(r.Intn(4)), int64(r.Intn(3)), int64(r.Intn(3))}})
 		default:
 			fm := g.field("set", "mutex", "bool")
 			ops = append(ops, simrt.Op{K: simrt.Pick(r, "minrow", "maxrow"), S: []string{g.index, fm.name, g.filterJSON(0.4)}, I: []int64{g.node()}})
@@ -136,6 +149,7 @@ func genC17(r *simrt.Rand, tier string) *simrt.Plan {
 	}
 	g := newDBGen(r, nodes)
 	g.noStore = replicas > 1
+	g.noShift = true // Shift across a shard edge is recorded under C15 (C15-F1)
 	types := []string{"set", "set", "int"}
 	for _, t := range []string{"mutex", "time"} {
 		if r.Bool(0.4) {
@@ -148,11 +162,16 @@ func genC17(r *simrt.Rand, tier string) *simrt.Plan {
 		v := g.intVal(f)
 		I := []int64{0, g.node()}
 		for _, c := range g.cols {
-			if r.Bool(0.6) {
+			switch {
+			case r.Bool(0.25): // no value: some shards contribute nothing to Min/Max/Sum
+			case r.Bool(0.6):
 				I = append(I, c, v)
-			} else {
+			default:
 				I = append(I, c, g.intVal(f))
 			}
+		}
+		if len(I) == 2 {
+			I = append(I, g.cols[0], v)
 		}
 		ops = append(ops, simrt.Op{K: "importval", S: []string{g.index, f.name}, I: I})
 	}
@@ -160,9 +179,36 @@ func genC17(r *simrt.Rand, tier string) *simrt.Plan {
 		ops = append(ops, g.write())
 	}
 	nq := 4 + r.Intn(10)
+	// with replicas, part of the reads run while one node is unreachable: every shard still has
+	// a live owner and the coordinator has to fail over
+	downAt, upAt := -1, -1
+	if replicas > 1 && r.Bool(0.5) {
+		downAt = r.Intn(nq)
+		upAt = downAt + 1 + r.Intn(nq-downAt)
+	}
 	for i := 0; i < nq; i++ {
+		if i == downAt {
+			ops = append(ops, simrt.Op{K: "nodedown", I: []int64{int64(r.Intn(nodes))}})
+		}
+		if i == upAt {
+			ops = append(ops, simrt.Op{K: "nodeup"})
+		}
 		fi := g.field("int")
 		fs := g.field("set", "mutex")
+		if i >= downAt && downAt >= 0 && i < upAt {
+			// no writes while a replica is unreachable
+		} else if r.Bool(0.2) {
+			ops = append(ops, g.write())
+		}
+		if r.Bool(0.15) {
+			if f := g.field("set"); f != nil {
+				filt := g.filterJSON(0.3)
+				n := int64(1 + r.Intn(3))
+				for nd := 0; nd < nodes; nd++ {
+					ops = append(ops, simrt.Op{K: "topnn", S: []string{g.index, f.name, filt}, I: []int64{int64(nd), n}})
+				}
+			}
+		}
 		switch r.Intn(8) {
 		case 0, 1:
 			ops = append(ops, simrt.Op{K: "allnodes", S: []string{g.index, g.expr(1 + r.Intn(2)).json()}, I: []int64{int64(r.Intn(2))}})
@@ -200,9 +246,7 @@ func genC17(r *simrt.Rand, tier string) *simrt.Plan {
 				ops = append(ops, simrt.Op{K: "topn", S: []string{g.index, fs.name, ""}, I: append([]int64{int64(nd), 0}, ids...)})
 			}
 		}
-		if r.Bool(0.2) {
-			ops = append(ops, g.write())
-		}
+
 	}
 	p := dbPlan(r, nodes, replicas, ops)
 	p.Knobs["pool"] = int64(simrt.Pick(r, 1, 2, 8, 16))
@@ -258,15 +302,39 @@ func genC19(r *simrt.Rand, tier string) *simrt.Plan {
 	ops := g.schema(r.Bool(0.5), []string{"time"})
 	f := g.field("time")
 	idx := []string{g.index, f.name}
+	// timestamp source: the usual 3-year window, or a small pool whose view names share digit
+	// groups (year 2001 / month 2020-01 = "202001" / day 20 / hour 01 = "...2001")
+	ts := g.ts
+	pool := r.Bool(0.35)
+	if pool {
+		ts = func() int64 {
+			return time.Date(simrt.Pick(r, 2001, 2002, 2012, 2020), time.Month(simrt.Pick(r, 1, 5, 12)), simrt.Pick(r, 1, 12, 20), simrt.Pick(r, 1, 12, 20), 0, 0, 0, time.UTC).Unix()
+		}
+	}
+	if r.Bool(0.15) {
+		// a field with one time view only: single-unit quantum, no standard view, one period
+		f.quantum, f.noStd = simrt.Pick(r, "Y", "M", "D", "H"), true
+		mk := &ops[len(ops)-1]
+		mk.S[3], mk.I[4] = f.quantum, 1
+		one := ts()
+		ts = func() int64 { return one }
+	}
+	if nodes > 1 {
+		// one column per shard, so that views are created on different nodes
+		g.cols = []int64{1, int64(pilosa.ShardWidth) + 1, 2*int64(pilosa.ShardWidth) + 1}
+	}
 	rounds := 1 + r.Intn(3)
 	for k := 0; k < rounds; k++ {
 		row, col := g.row(), g.col()
 		ns := 1 + r.Intn(6)
+		var stamps []int64
 		for i := 0; i < ns; i++ {
-			ops = append(ops, simrt.Op{K: "set", S: idx, I: []int64{row, col, g.node(), g.ts()}})
+			t := ts()
+			stamps = append(stamps, t)
+			ops = append(ops, simrt.Op{K: "set", S: idx, I: []int64{row, col, g.node(), t}})
 			if r.Bool(0.5) {
 				// sibling views from other columns / rows
-				ops = append(ops, simrt.Op{K: "set", S: idx, I: []int64{g.row(), g.col(), g.node(), g.ts()}})
+				ops = append(ops, simrt.Op{K: "set", S: idx, I: []int64{g.row(), g.col(), g.node(), ts()}})
 			}
 		}
 		if nodes == 1 && r.Bool(0.2) {
@@ -278,6 +346,13 @@ func genC19(r *simrt.Rand, tier string) *simrt.Plan {
 			from, to := g.alignedRange(f.quantum)
 			ops = append(ops, simrt.Op{K: "q", S: []string{g.index, (&expr{K: "rowt", F: f.name, R: row, From: from, To: to}).json()}, I: []int64{g.node()}})
 		}
+		// the finest unit around every timestamp the bit was set with, and everything
+		u := finestUnit(f.quantum)
+		for _, t := range stamps {
+			from := truncUnit(time.Unix(t, 0).UTC(), u)
+			ops = append(ops, simrt.Op{K: "q", S: []string{g.index, (&expr{K: "rowt", F: f.name, R: row, From: from.Unix(), To: addUnit(from, u, 1).Unix()}).json()}, I: []int64{g.node()}})
+		}
+		ops = append(ops, simrt.Op{K: "q", S: []string{g.index, (&expr{K: "rowt", F: f.name, R: row, From: time.Date(2000, 1, 1, 0, 0, 0, 0, time.UTC).Unix(), To: time.Date(2030, 1, 1, 0, 0, 0, 0, time.UTC).Unix()}).json()}, I: []int64{g.node()}})
 		// the whole window and the standard view
 		ops = append(ops, simrt.Op{K: "q", S: []string{g.index, (&expr{K: "rowt", F: f.name, R: row, From: g.base.AddDate(-1, 0, 0).Unix(), To: g.base.AddDate(5, 0, 0).Unix()}).json()}, I: []int64{g.node()}})
 		if !f.noStd {
